@@ -258,6 +258,23 @@ def check (c):
         worst = max (worst, d / 1e-12)
         if d > 1e-12:
             bad ('sweep=singles', 'sweep-vs-single-requests', 'form %s: an azimuth sweep differs by %.3g of the maximum from one request per azimuth angle' % (name, d), measured = d, allowed = 1e-12)
+    # ---- (h) Medium objects handed to one model and then to another (library use: the soil beyond a radial screen
+    # and the same soil beyond a straight coast line): the second model is what fresh objects give
+    outer = MM.Medium (g ['eps2'], g ['sig2'], g ['h2'])
+    first = MM.Medium (g ['eps'], g ['sig'], 0.0, coord = g ['c1'], boundary = 'circular', nradials = int (g ['radials'][0]), radius = g ['radials'][1])
+    sA = copy.deepcopy ({k: v for k, v in spec.items () if k != 'g'})
+    mA = gen.build (sA, route = 'api', media_objs = [first, outer])
+    observe.solve (mA)
+    pattern (mA)
+    mB = gen.build (sA, route = 'api', media_objs = [MM.Medium (g ['eps'], g ['sig'], 0.0, coord = g ['c1'], boundary = 'linear'), outer])
+    observe.solve (mB)
+    mF, _, _ = solved (spec, [[g ['eps'], g ['sig'], 0.0, g ['c1']], [g ['eps2'], g ['sig2'], g ['h2']]], 'linear')
+    pB, pF = 10 ** (pattern (mB) [..., 2] / 10), 10 ** (pattern (mF) [..., 2] / 10)
+    mon ['medium-object-reused'] = 1
+    d = float (np.abs (pB - pF).max () / pF.max ())
+    worst = max (worst, d / 1e-12)
+    if d > 1e-12:
+        bad ('medium-object-reused', 'medium-object-reused', 'a Medium object that was the outer medium of a circular ground with radials, used again as the outer medium of a linear ground: pattern differs by %.3g of the maximum from fresh objects (boundary now %r)' % (d, getattr (mB.media [0], 'boundary', None)), measured = d, allowed = 1e-12)
     # ---- (f) an interface coordinate of exactly 0: a linear boundary through the origin is the boundary at c1
     # seen from an antenna moved by -c1 along x; a circular boundary of radius 0 leaves the second medium only
     def shifted (dx):
